@@ -299,6 +299,7 @@ def run(ctx, prog, res):
                     n9 += 1
                     r9.check("@Val.0" in m.group(1), {"fn": fid.split("::")[-1], "pred_of": m.group(1)}, "C07.R9:pred:%s" % fid.split("::")[-1], "%s takes the predecessor of %s, which is not the payload of a Frame::Val" % (fid, m.group(1)), lib.where_of(fn))
     r9.floor(6)
+    rule_r10(ctx, prog, res)
 
 
 def _is_loop_exhausted_exit(f, bb, loops):
@@ -333,3 +334,48 @@ def _is_loop_exhausted_exit(f, bb, loops):
         cur = idom
     return False
 
+
+
+def rule_r10(ctx, prog, res):
+    r10 = res.rule("C07.R10", "a year selector is folded into the paving exactly when the half-open range it becomes selects the years its filter selects: YearRange::try_make_canonical (with Frame::to_range_strict) and YearRange::filter are extracted per path from MIR (peval) and compared on start and end years over {1900, 2000..=2008, 9999} in both orders with steps 1, 2, 3, 10 and 65000, year by year over 1900..=1905, 1990..=2040 and 9990..=9999; a stepped range may only be declared not canonical (none)")
+    import peval
+    YR = "opening_hours_syntax::rules::day::YearRange"
+    tmc = [f for k, f in prog.fns.items() if k == "<%s as opening_hours_syntax::normalize::canonical::MakeCanonical>::try_make_canonical" % YR]
+    filt = prog.impl_method("DateFilter", self_adt=YR, name="filter")
+    if len(tmc) != 1 or len(filt) != 1:
+        r10.anchor_missing("MakeCanonical::try_make_canonical / DateFilter::filter for YearRange")
+        return
+    ev = peval.Evaluator(prog, externs={"Framable::succ": lambda x: x + 1, "Framable::pred": lambda x: x - 1}, consts={"FRAME_END": 9999, "FRAME_START": 1900})
+    ys = [1900] + list(range(2000, 2009)) + [9999]
+    window = list(range(1900, 1906)) + list(range(1990, 2041)) + list(range(9990, 10000))
+    bad = None
+    n = 0
+    folded = 0
+    try:
+        for s in ys:
+            for e in ys:
+                for k in (1, 2, 3, 10, 65000):
+                    sel = {"range": ("range", s, e), "step": k}
+                    got = ev.run(tmc[0], [sel])
+                    n += 1
+                    if got is None:
+                        continue
+                    folded += 1
+                    rg = got[1][2]
+                    a = rg["start"][2]["0"] if rg["start"][1] == "Val" else None
+                    b = rg["end"][2]["0"] if rg["end"][1] == "Val" else None
+                    for y in window:
+                        inside = (a is None or y >= a) and (b is None or y < b) if (a is None or b is None or a < b) else (y >= a or y < b)
+                        f = bool(ev.run(filt[0], [sel, (y, 6, 15), None]))
+                        n += 1
+                        if inside != f and bad is None:
+                            bad = (s, e, k, y, (a, b), f)
+    except peval.Unmodelled as ex:
+        r10.fail("C07.R10:unmodelled", "try_make_canonical / filter of YearRange cannot be evaluated from their MIR any more (%s): not decided, failing closed" % ex, lib.where_of(tmc[0]))
+        return
+    msg = ""
+    if bad:
+        s, e, k, y, ab, f = bad
+        msg = "`%d-%d%s` is folded into the paving as the years [%s, %s) but its filter says %s for %d: normalization changes the years the rule applies to" % (s, e, "/%d" % k if k != 1 else "", ab[0], ab[1] if ab[1] is not None else "end", f, y)
+    r10.check(bad is None, {"year_ranges": len(ys) ** 2, "steps": [1, 2, 3, 10, 65000], "folded": folded, "evaluations": n}, "C07.R10:year", msg, lib.where_of(tmc[0]))
+    r10.check(folded >= len(ys) ** 2, {"ranges_folded": folded}, "C07.R10:FLOOR", "FLOOR: only %d of the year ranges were folded (every unstepped range is expected to be)" % folded, lib.where_of(tmc[0]))
